@@ -92,6 +92,19 @@ PROPS = {
              "compaction) is compared segment by segment with the model's; non-trivial = >= 2 sections share a key",
         technique="Coq proof (compaction at every splice point preserves reads; full-compaction shape) + lock-step on the store footer",
     ),
+    "C14": dict(
+        runs=[("index", "func", "indexrun", 3000, 60000, 0), ("index", "api", "indexrun", 40, 600, 0)],
+        corr={"model:index", "driver-error", "harness-error"}, corr_held=False,
+        spec={"spec:index-dependent"}, spec_held=False,
+        rule="function level: random ascending key sets (0-240 keys, shared prefixes, empty key, long keys, bytes 00/ff) "
+             "with quota 1..100000 and minimum-key-bytes at/around the segment's total, so that indexes with every hop "
+             "and truncated indexes arise; 12 probes each (present, just before/after a key, empty, above the last); "
+             "index shape, window, findKeyPos and findStartKeyInclusivePos compared with the model; non-trivial = an "
+             "index was actually built.  API level: one persisted three-round history reopened read-only under seven "
+             "index settings (off, tiny quotas, exhausted quota, ample, default threshold); Get and range starts/ends "
+             "must agree across settings and with the reference",
+        technique="Coq proof (window contains key and lower bound for every hop/truncation; lookups = linear spec) + function- and API-level correspondence",
+    ),
     "C11": dict(
         runs=[TREE + (360, 6000, 28)],
         corr=STRUCT | READS | {"tmodel:cget"}, corr_held=True,
